@@ -5,6 +5,11 @@ VERIF = os.path.dirname(os.path.dirname(os.path.abspath(__file__)))
 ALL = [f"C{i:02d}" for i in range(1, 21)]
 
 CHECKS = {
+ "C02": dict(
+   category="other", design_ref="DESIGN.md §4 C02, §8",
+   text="Pointwise model checking: spec/isa/A64Enc.tla states, per database row (bit template exported by tools/db_export_a64.js), Matches (literal bits equal, every field equal to what its field rule - 45 rules written from the Arm ARM: registers incl. SP/ZR legality, sf/size/Q from width or arrangement, shifts/extends, condition codes, imm12+lsl, logical immediates via DecodeBitMasks, move-wide incl. multi-word mov via MovEval, scaled/unscaled/pair/pre/post/register-index offsets, element indices H:L:M, SIMD shift immediates, system registers, fp8) and Refused (some operand has no field value). harness/a64sweep.cpp sweeps the real a64::Assembler over 2276 rows x register ids {0,1,15,16,29,30,sp,zr,33} (all ids in thorough) x SP/ZR where allowed and where not x arrangements/lanes x shift/extend kinds x amounts at both limits and one beyond x offsets {0,+-size,max,max+size,misaligned} x immediates at limits (91k observations quick, 426k thorough); TLC evaluates the invariant on every observation. llvm-mc 14 assembles an asmjit-independent rendering of the same instruction as a second leg judged by the same predicate: a VIOLATION is raised only when spec and llvm-mc agree against asmjit (wrong word, or accepted-but-unencodable).",
+   note="Coverage is a sweep, not exhaustive: 2157 of 2766 non-SVE rows judged; the rest (SVE/SME, mnemonics without an a64::Inst id, named system operations, some AdvSIMD classes, rows where the DB contradicts both assemblers) are listed by name in the evidence and never judged. Refusal of an encodable instruction is C13's question. Trusted: TLC, A64Enc.tla/A64Imm.tla, exporter, harness, llvm-mc 14 as corroboration.",
+   technique="TLA+ form/field specification parameterised by the ISA database + TLC pointwise checking of swept observations, corroborated by llvm-mc"),
  "C03": dict(
    category="model_checking", design_ref="DESIGN.md §4 C03, §8",
    text="Trace validation against the contract CodeRef.tla: random and limit-probing programs (label creation, forward/backward references of every pc-relative kind of both back ends - jmp/jcc/call short/long, jecxz/loop, [rip+label+disp] with trailing immediates, b/bl, b.cond/cbz/ldr-literal, tbz, adr, adrp - embedded label addresses and label deltas of size 1/2/4/8, binds incl. double binds, aligns, data, up to 5 sections, section switches, labels left unbound, distances on both sides of every range limit incl. +-2 GiB / +-128 MiB via virtual section sizes) are executed on the real x86-32/x86-64/AArch64 assemblers; after flatten + cross-section resolution + relocation the raw bytes of every reference site are read BY THE SPEC (architecture's reading of rel8/rel32/disp32/imm26/imm19/imm14/ADR/ADRP written from the manuals) and must equal target - origin + addend exactly; every site that is not exact must be counted as unresolved and nothing else may be (NeverTruncated + ZeroIffNone); every emitting call appends exactly the logged bytes at the cursor; refused references append nothing.",
@@ -24,6 +29,11 @@ CHECKS = {
    category="model_checking", design_ref="DESIGN.md §4 C09, §8",
    text="TLC checks exhaustively (tiny blocks, all histories of alloc/release/shrink/reset up to depth 5 quick / 7 thorough, padding and immediate-release variants) that the transcribed pool algorithm JitAllocImpl (bit vectors, search window, largest-unused cache, empty/dirty/incremental flags, cursor, block doubling) refines the contract JitAlloc.tla and keeps its structural invariants. The real allocator is bound to the same contract by trace validation: TLC-simulated histories scaled to real block sizes and long seeded random histories over all option sets x granularities 64/128/256 x block sizes are executed (ASan/UBSan build); every recorded call must be a contract step: spans non-null, granule aligned, >= request, disjoint in rx and rw view, contents intact at every step, rw/rx aliasing, query exact, foreign pointers refused, statistics exact, fill pattern on freed memory, released memory reusable without a new block, retention policy after release-all/reset, is_initialized.",
    note="Trusted: TLC, the contract spec, harness projection (public API, mincore, byte comparisons reported as booleans, order-preserving address compression). Large pages/hardened runtime not available in the sandbox. OutOfMemory from the OS is tolerated (counted).",
+   technique="TLA+ contract + refinement of impl-shaped spec (TLC) + trace validation of recorded executions"),
+ "C10": dict(
+   category="model_checking", design_ref="DESIGN.md §4 C10, §8",
+   text="TLC checks that the transcribed section machinery LayoutImpl (ordered insertion by (order,id), both flatten loops incl. virtual-size extension, code_size, copy_flattened_data with both padding flags, address-table shrink of relocate_to_base) refines the contract Layout.tla over all section tables with <=2 user sections (alignments {0,1,2,8,16,64}, sizes {0,1,5,16}, virtual sizes {0,3,40}, orders {-1,0,1}; thorough adds 3-4 sections, order ties with .text/.addrtab, and an address table with all copy size x flag combinations). The real CodeHolder is bound to the same contract by trace validation: TLC-enumerated and TLC-simulated tables are replayed on the code, seeded random tables cover up to 12 sections, 64 KiB alignments, orders INT_MIN..INT_MAX, arbitrary/duplicate/maximal/over-long names. Every new_section / section_by_name / embed / set_virtual_size / far jmp+call / code_size / flatten / copy_flattened_data (sizes 0, need-1, need, need+7 x 4 flag sets) / copy_section_data / relocate_to_base result must be a contract step: offsets aligned, ordered and disjoint; code_size = end of last section before and after relocation; estimate >= final; image exact (run-length comparison); guard cells untouched; too-small destinations refused.",
+   note="Trusted: TLC, Layout.tla, the harness projection (public API, RLE, guard cells). Plain (unsanitised) build (memcpy(dst,nullptr,0) for never-written sections). Sizes stay below 2^31 (kTooLarge / SIZE_MAX exits not exercised). A second flatten() is informational only. Address-table contents belong to C04.",
    technique="TLA+ contract + refinement of impl-shaped spec (TLC) + trace validation of recorded executions"),
  "C11": dict(
    category="model_checking", design_ref="DESIGN.md §4 C11, §8",
